@@ -317,6 +317,9 @@ class Run:
         self.infra = []
 
     def run(self, nproc=None):
+        self._run(nproc)
+
+    def _run(self, nproc=None):
         rng = random.Random(self.seed)
         items = self.mod.cases(self.tier, rng)
         nproc = nproc or int(os.environ.get("VERIF_NPROC", min(14, os.cpu_count() or 2)))
@@ -413,6 +416,18 @@ def shrink_case(mod, name, case, still_fails, budget=150):
 
 
 def main_check(pid, tier, seed, replay=None):
+    import shutil
+    import tempfile
+    base0 = os.environ.get("VERIF_SCRATCH_BASE", "/dev/shm" if os.path.isdir("/dev/shm") else tempfile.gettempdir())
+    scratch = tempfile.mkdtemp(prefix=f"coolerverif-{pid}-", dir=base0)
+    os.environ["VERIF_SCRATCH"] = scratch     # gen.tmpdir() creates per-process dirs below it
+    try:
+        return _main_check(pid, tier, seed, replay)
+    finally:
+        shutil.rmtree(scratch, ignore_errors=True)
+
+
+def _main_check(pid, tier, seed, replay=None):
     t0 = time.time()
     mod = importlib.import_module(f"harness.{pid.lower()}")
     try:
